@@ -49,6 +49,10 @@ class BaseMilstein(base_solver.BaseSDESolver, metaclass=abc.ABCMeta):
     def y_prime_f_factor(self, dt, f):
         raise NotImplementedError
 
+    @abc.abstractmethod
+    def g_difference(self, t0, y0, g, g_, g_prime, sqrt_dt):
+        raise NotImplementedError
+
     def step(self, t0, t1, y0, extra0):
         del extra0
         dt = t1 - t0
@@ -64,7 +68,7 @@ class BaseMilstein(base_solver.BaseSDESolver, metaclass=abc.ABCMeta):
             y0_prime = y0 + self.y_prime_f_factor(dt, f) + g_ * sqrt_dt
             g_prime = self.sde.g(t0, y0_prime)
             g_prod_I_k = self.sde.prod(g, I_k)
-            gdg_prod = self.sde.prod(g_prime - g, v) / (2 * sqrt_dt)
+            gdg_prod = self.sde.prod(self.g_difference(t0, y0, g, g_, g_prime, sqrt_dt), v) / (2 * sqrt_dt)
         else:
             f = self.sde.f(t0, y0)
             g_prod_I_k, gdg_prod = self.sde.g_prod_and_gdg_prod(t0, y0, I_k, 0.5 * v)
@@ -83,6 +87,11 @@ class MilsteinIto(BaseMilstein):
     def y_prime_f_factor(self, dt, f):
         return dt * f
 
+    def g_difference(self, t0, y0, g, g_, g_prime, sqrt_dt):
+        # The one-sided difference has a second-order error ~ g'' g^2 dt / 2, which is harmless here as it gets
+        # multiplied by v = I_k ** 2 - dt, of mean zero.
+        return g_prime - g
+
 
 class MilsteinStratonovich(BaseMilstein):
     sde_type = SDE_TYPES.stratonovich
@@ -92,3 +101,9 @@ class MilsteinStratonovich(BaseMilstein):
 
     def y_prime_f_factor(self, dt, f):
         return 0.
+
+    def g_difference(self, t0, y0, g, g_, g_prime, sqrt_dt):
+        # Here v = I_k ** 2 does not have mean zero, so the second-order error of a one-sided difference would bias
+        # every step by g'' g^2 dt^(3/2) / 4 and reduce the strong order to 0.5. Use a central difference instead.
+        g_minus = self.sde.g(t0, y0 - g_ * sqrt_dt)
+        return 0.5 * (g_prime - g_minus)
